@@ -1,8 +1,11 @@
 package main
 
 import (
+	"encoding/json"
 	"fmt"
 	"go/types"
+	"os"
+	"path/filepath"
 	"sort"
 	"time"
 
@@ -107,6 +110,7 @@ func buildEvidence(spec *Spec, tier string, seed int, results []*EntryResult, ws
 		"confirmed_violations": confirmed,
 		"incomplete":          incompleteNotes,
 		"exhaustive":          false,
+		"translator_selftest": selftestSummary(),
 	}
 	ev := map[string]interface{}{
 		"property_id": spec.Property,
@@ -122,6 +126,27 @@ func buildEvidence(spec *Spec, tier string, seed int, results []*EntryResult, ws
 }
 
 var solverDesc = "z3"
+
+// selftestSummary reports the last committed run of `verif selftest` (the comparison of
+// the encoding with the compiled code that every check relies on); it is not re-run by a
+// check.
+func selftestSummary() map[string]interface{} {
+	out := map[string]interface{}{"command": "bin/verif selftest", "ran_by_this_check": false}
+	data, err := os.ReadFile(filepath.Join(verifDir(), "selftest", "result.json"))
+	if err != nil {
+		out["last_result"] = "none recorded"
+		return out
+	}
+	var r map[string]interface{}
+	if json.Unmarshal(data, &r) != nil {
+		out["last_result"] = "unreadable"
+		return out
+	}
+	for _, k := range []string{"vectors_compared", "agree", "mismatch", "problems", "models_per_path"} {
+		out[k] = r[k]
+	}
+	return out
+}
 
 // instrumentedSources lists the files of /repo that were instrumented for this run.
 var instrumentedSources []string
